@@ -13,6 +13,10 @@ pub enum NetFault {
     CutAfter(usize),
     /// deliver this many body bytes, then a clean end of body
     EarlyEof(usize),
+    /// a clean end of body at the first of these absolute offsets of the resource that lies
+    /// inside the requested range (a short but well-formed response that ends on a boundary the
+    /// caller cares about: the end of a chunk); a request that contains none is served in full
+    EarlyEofAtOneOf(Vec<u64>),
     /// append this many extra bytes after the requested range
     Extra(usize),
     /// the body has the requested length but wrong content (an error page)
@@ -159,6 +163,14 @@ impl Server {
                 end = BodyEnd::Error("connection reset by peer".into());
             }
             Some(NetFault::EarlyEof(c)) => body.truncate(c),
+            Some(NetFault::EarlyEofAtOneOf(list)) => {
+                if let Some((a, _)) = parsed {
+                    if let Some(cut) = list.iter().filter(|&&o| o > a && ((o - a) as usize) < body.len()).min() {
+                        body.truncate((cut - a) as usize);
+                        simkit::try_with(|s| s.count("net-short-body-ends-on-a-chunk-boundary"));
+                    }
+                }
+            }
             Some(NetFault::Extra(k)) => {
                 if k <= 4096 {
                     body.extend(std::iter::repeat(0xEE).take(k));
